@@ -31,6 +31,10 @@ SEND_Q = 'minecraft.networking.types.basic.VarInt.send'
 SIZE_Q = 'minecraft.networking.types.basic.VarInt.size'
 
 
+# nominal maximum encoded length, from the property statement (not read from the code under test)
+NOMINAL = {'VarInt': 5, 'VarLong': 10}
+
+
 def _raw(cls, name):
     return cls.__dict__[name].__func__ if isinstance(cls.__dict__.get(name), (staticmethod, classmethod)) \
         else getattr(cls, name)
@@ -71,12 +75,12 @@ class ReadArbitrary(Unit):
         key = _while_key(f, READ_Q)
         if key:
             # complete unrolling with an unwinding assertion: one iteration per byte read
-            I.unroll[key] = self.cls.max_bytes + 2
+            I.unroll[key] = NOMINAL[self.cls.__name__] + 2
 
     def run(self, I):
         E = I.E
         cls = self.cls
-        mb = cls.max_bytes
+        mb = NOMINAL[cls.__name__]
         s = ArbitraryStream(I, 's')
         self.stream = s
         try:
@@ -144,7 +148,7 @@ class ReadArbitrary(Unit):
         """Bounded stand-in (cross-check of the engine, not counted as proof): every stream up to 2 bytes,
         every continuation shape up to max_bytes+3 with boundary payloads."""
         fails, n = [], 0
-        mb = self.cls.max_bytes
+        mb = NOMINAL[self.cls.__name__]
         cases = [bytes([a]) for a in range(256)] + [b'']
         cases += [bytes([a, b]) for a in (0, 1, 0x7f, 0x80, 0x81, 0xff) for b in range(256)]
         for ln in range(1, mb + 4):
@@ -165,12 +169,12 @@ def replay_read(cls, data):
     """Executable contract of read, evaluated on the real function."""
     st = CountingStream(data)
     kind, val = native_call(cls.read, st)
-    spec = wire.varint_dec_spec(data, cls.max_bytes)
+    spec = wire.varint_dec_spec(data, NOMINAL[cls.__name__])
     call = '%s.read(BytesIO(%r))' % (cls.__name__, data)
     bad = None
     if kind == 'hang':
         bad = 'did not terminate within the time bound'
-    elif st.reads > cls.max_bytes + 1:
+    elif st.reads > NOMINAL[cls.__name__] + 1:
         bad = '%d reads > max_bytes+1' % st.reads
     elif spec[0] == 'value':
         if kind != 'ok' or val != spec[1] or st.tell() != spec[2]:
@@ -202,7 +206,7 @@ class SendCanonical(Unit):
             I.unroll[key] = kmax
         key = _while_key(_raw(VarInt, 'read'), READ_Q)
         if key:
-            I.unroll[key] = self.cls.max_bytes + 2
+            I.unroll[key] = NOMINAL[self.cls.__name__] + 2
 
     def run(self, I):
         E = I.E
@@ -292,7 +296,7 @@ def replay_send(cls, n):
         else:
             st = CountingStream(s.data)
             k2, v2 = native_call(cls.read, st)
-            if n < (1 << (7 * cls.max_bytes)) and (k2 != 'ok' or v2 != n or st.tell() != len(want)):
+            if n < (1 << (7 * NOMINAL[cls.__name__])) and (k2 != 'ok' or v2 != n or st.tell() != len(want)):
                 bad = 'decoding enc(n) gave %s %r' % (k2, v2)
             elif cls.size(n) != len(want) if n < (1 << 84) else False:
                 bad = 'size(%d) = %d but the encoding has %d bytes' % (n, cls.size(n), len(want))
